@@ -15,6 +15,7 @@ trailing zeros that keep N, round trip record -> spectrum -> inverse helper, res
 after a second record of the same shape went through the same paths (back-to-back.first-result-intact).
 """
 import copy
+import pickle
 import weakref
 
 import numpy as np
@@ -131,6 +132,9 @@ _LAST = {}      # id(signal) -> (weakref, p2_plus, n, N, digest(values)) of the 
 _HISTORY = [None]   # parameters of the object history being driven (only to make the monitor's witness replayable)
 _DFT_CACHE = {}  # (digest(x_pad), bins tag) -> (ks, X)
 _GEN_SEQ = [0]   # number of monitored gen_fa_spectrum returns (tells a property access that it triggered a generation)
+_PHASE = [None]  # set by the history driver once a copy / an attribute assignment / a raising operation has happened in the
+# history being driven: the lazy reads that follow are reported under the clause family of that name (same oracle)
+NF_CLAUSE = 'non-finite-record.spectrum-of-current-values'
 
 
 def n_shards(tier):
@@ -212,8 +216,22 @@ def _entry(ctx, sig):
         raw = np.array(sig.values)
     except Exception:
         raw = None
-    return {'rec': _record_of(ctx, sig), 'raw': raw, 'dt': getattr(sig, 'dt', None), 'cls': type(sig).__name__,
-            'pub': _public_state(sig)}
+    rec = _record_of(ctx, sig)
+    return {'rec': rec, 'raw': raw, 'dt': getattr(sig, 'dt', None), 'cls': type(sig).__name__,
+            'pub': _public_state(sig), 'nf': _nonfinite_of(raw, getattr(sig, 'dt', None)) if rec is None else None}
+
+
+def _nonfinite_of(raw, dt):
+    """(npts, dt) for a 1-D float / complex record of length >= 2 that holds NaN or inf (the clean code accepts such
+    records silently) and a valid dt; None otherwise."""
+    if raw is None or raw.ndim != 1 or raw.size < 2 or raw.dtype.kind not in 'fc' or raw.dtype.itemsize < 4:
+        return None
+    if np.all(np.isfinite(raw)):
+        return None
+    if isinstance(dt, (bool, np.bool_)) or not isinstance(dt, (int, float, np.integer, np.floating)) \
+            or not np.isfinite(dt) or not dt > 0:
+        return None
+    return int(raw.size), float(dt), (LOOSE if (raw.dtype.itemsize == 4 or raw.dtype == np.complex64 or isinstance(dt, np.float32)) else TIGHT)
 
 
 def _public_state(sig):
@@ -331,6 +349,34 @@ def check_spectrum(ctx, where, wit, x, dt, N, fa, fr, bins_label='bins==dt*DFT',
            '%s: npts=%d N=%d dt=%r: dt*sum x^2=%r but (|F0|^2+2 sum|Fk|^2+unreported)/(N dt)=%r' % (where, len(x), N, dt, lhs, rhs))
 
 
+def check_nonfinite(ctx, where, wit, nf, N, fa, fr):
+    """A record that holds NaN / inf (accepted silently by the library): every term of the direct sum dt*sum x_j w^(jk)
+    contains the non-finite sample, so EVERY bin of the spectrum of the current values is non-finite; the number of bins
+    and the frequency grid do not depend on the values. A finite bin is a spectrum of some other (earlier) record."""
+    npts, dt, T = nf
+    if N < npts:
+        ctx.observe('not judged: n < npts (truncation)')
+        return
+    M = N // 2
+    try:
+        fa = np.asarray(fa)
+        fr = np.asarray(fr)
+        ok = fa.shape == (M,) and fr.shape == (M,)
+    except Exception:
+        ok = False
+    msg = '%s: non-finite record npts=%d N=%d: shapes %s / %s, expected %d bins' % (where, npts, N, np.shape(fa), np.shape(fr), M)
+    if ok:
+        fref = O.frequencies(N, dt)
+        ok = tol.close(fr, fref, scale=np.abs(fref), rtol=T['freq'])
+        msg = '%s: non-finite record npts=%d N=%d dt=%r: frequency grid is not k/(N*dt)' % (where, npts, N, dt)
+    if ok and fa.dtype.kind in 'fc':
+        nfin = int(np.count_nonzero(np.isfinite(fa)))
+        ok = nfin == 0
+        msg = ('%s: the record holds NaN/inf (npts=%d, N=%d) but %d of %d reported bins are finite: not the spectrum of '
+               'the current values' % (where, npts, N, nfin, M))
+    _judge(ctx, ok, NF_CLAUSE, wit, msg)
+
+
 def _expected_n(ctx, npts, p2_plus, n):
     """N per the statement for the options of gen_fa_spectrum / calc_fa_spectrum; None when outside the quantifier."""
     if n is not None:
@@ -354,11 +400,13 @@ def _post_gen(args, kwargs, result, st):
     n = args[2] if len(args) > 2 else kwargs.get('n', None)
     _GEN_SEQ[0] += 1
     rec = st['rec']
-    if rec is None:
+    nf = st.get('nf')
+    if rec is None and nf is None:
         _LAST.pop(id(self), None)
         return
-    x, dt, T = rec
-    N = _expected_n(CTX, len(x), p2_plus, n)
+    if rec is not None:
+        x, dt, T = rec
+    N = _expected_n(CTX, len(x) if rec is not None else nf[0], p2_plus, n)
     if len(_LAST) > 2000:
         for k in [k for k, v in _LAST.items() if v[0]() is None]:
             del _LAST[k]
@@ -370,6 +418,9 @@ def _post_gen(args, kwargs, result, st):
     with attach.paused():
         fa = self.fa_spectrum
         fr = self.fa_freqs
+    if rec is None:
+        check_nonfinite(CTX, 'gen_fa_spectrum', wit, nf, N, fa, fr)
+        return
     check_spectrum(CTX, 'gen_fa_spectrum', wit, x, dt, N, fa, fr, T=T)
 
 
@@ -403,10 +454,12 @@ def _post_lazy(self, result, st, which):
     changed = st['changed']
     triggered = _GEN_SEQ[0] != st['seq0']
     rec = st['rec']
-    if rec is None:
+    nf = st.get('nf')
+    if rec is None and nf is None:
         return
-    x, dt, T = rec
-    N, prior = _expected_lazy_n(self, len(x), triggered, changed)
+    if rec is not None:
+        x, dt, T = rec
+    N, prior = _expected_lazy_n(self, len(x) if rec is not None else nf[0], triggered, changed)
     hist = _HISTORY[0]
     wit = (lambda: dict(hist, fn='rel.history')) if hist is not None else \
         (lambda: _sig_wit(st, 'Signal.' + which, prior_gen=prior))
@@ -416,7 +469,11 @@ def _post_lazy(self, result, st, which):
     with attach.paused():
         fa = result if which == 'fa_spectrum' else self.fa_spectrum
         fr = result if which in ('fa_freqs', 'fa_frequencies') else self.fa_freqs
-    if changed:
+    if rec is None:
+        check_nonfinite(CTX, 'reading ' + which, wit, nf, N, fa, fr)
+    elif _PHASE[0] is not None and hist is not None:
+        check_spectrum(CTX, _PHASE[0], wit, x, dt, N, fa, fr, bins_label='bins==dt*DFT(own current values)', T=T)
+    elif changed:
         check_spectrum(CTX, 'lazy-after-mutation', wit, x, dt, N, fa, fr, bins_label='bins==dt*DFT(current values)', T=T)
     else:
         check_spectrum(CTX, 'lazy', wit, x, dt, N, fa, fr, T=T)
@@ -433,6 +490,10 @@ def _post_generate(args, kwargs, result, st):
     n_pad = args[1] if len(args) > 1 else kwargs.get('n_pad', True)
     rec = st['rec']
     if rec is None:
+        nf = st.get('nf')
+        if nf is not None and isinstance(result, tuple) and len(result) == 2:
+            check_nonfinite(CTX, 'generate_fa_spectrum', lambda: _sig_wit(st, 'generate_fa_spectrum', n_pad=n_pad), nf,
+                            O.n_padded(nf[0]) if n_pad else nf[0], result[0], result[1])
         return
     x, dt, T = rec
     N = O.n_padded(len(x)) if n_pad else len(x)
@@ -452,6 +513,12 @@ def _post_calc(args, kwargs, result, st):
     p2_plus = args[2] if len(args) > 2 else kwargs.get('p2_plus', None)
     rec = st['rec']
     if rec is None:
+        nf = st.get('nf')
+        if nf is not None and isinstance(result, tuple) and len(result) == 2:
+            N = nf[0] if (n is None and p2_plus is None) else _expected_n(CTX, nf[0], p2_plus, n)
+            if N is not None:
+                check_nonfinite(CTX, 'calc_fa_spectrum', lambda: _sig_wit(st, 'calc_fa_spectrum', n=n, p2_plus=p2_plus), nf,
+                                N, result[0], result[1])
         return
     x, dt, T = rec
     _check_record_unchanged(CTX, 'calc_fa_spectrum', lambda: _sig_wit(st, 'calc_fa_spectrum', n=n, p2_plus=p2_plus), sig, st)
@@ -665,7 +732,7 @@ def _unchanged(obj, snap):
         return True
     if isinstance(obj, np.ndarray):
         return _same_bits(obj, snap)
-    return len(obj) == len(snap) and all(type(u) is type(v) and u == v for u, v in zip(obj, snap))
+    return len(obj) == len(snap) and all(u is v or (type(u) is type(v) and u == v) for u, v in zip(obj, snap))
 
 
 NARROW = [('int32', -2 ** 31, 2 ** 31 - 1), ('int16', -2 ** 15, 2 ** 15 - 1), ('int8', -128, 127), ('uint8', 0, 255),
@@ -709,10 +776,10 @@ def _draw_input(rng, npts, allow_f32=True):
         x[-k:] = x[-k - 1]
         rcls += '/flat-ends'
     r = rng.random()
-    if r < 0.20:                                       # shapes the statement does not forbid
+    if r < 0.24:                                       # shapes the statement does not forbid
         x = x.copy()
         peak = max(float(np.max(np.abs(x))), 1e-300)
-        kind = int(rng.integers(7))
+        kind = int(rng.integers(9))
         if kind == 0:                                  # one-sided: all the action at negative values
             x = -np.abs(x) - (peak if rng.random() < 0.5 else 0.0)
             rcls += '/one-sided'
@@ -730,6 +797,12 @@ def _draw_input(rng, npts, allow_f32=True):
         elif kind == 4:                                # energy exactly at the Nyquist frequency on top of the record
             x = x + peak * float(rng.choice([1.0, 3.0])) * np.where(np.arange(npts) % 2 == 0, 1.0, -1.0)
             rcls += '/+nyquist'
+        elif kind == 7:                                # a silent record: every sample exactly zero
+            x = np.zeros(npts)
+            rcls += '/silent'
+        elif kind == 8:                                # strictly one-signed: no zero, no sign change (positive side)
+            x = np.abs(x) + peak * float(rng.choice([1.0, 1e-3, 1e3]))
+            rcls += '/strictly-positive'
         elif kind == 5:                                # one sample 1e3 .. 1e12 times larger than the others
             x[int(rng.integers(npts))] = peak * 10.0 ** float(rng.choice([3, 6, 9, 12])) * float(rng.choice([-1.0, 1.0]))
             rcls += '/spike'
@@ -1150,7 +1223,8 @@ def _draw_mutator(rng, kind, npts, dt):
         else:
             m = npts + int(rng.integers(1, npts + 4))
         v = gen.record(rng, m)[0]
-        return [name, [float(t) for t in v] if rng.random() < 0.2 else v]
+        r = rng.random()
+        return [name, [float(t) for t in v] if r < 0.2 else (tuple(float(t) for t in v) if r < 0.3 else v)]
     if name == 'add_constant':
         c = float(rng.choice([-1.0, 1.0]) * 10.0 ** rng.uniform(-2, 1))
         return [name, int(round(c)) or 1] if rng.random() < 0.2 else [name, c]
@@ -1159,6 +1233,10 @@ def _draw_mutator(rng, kind, npts, dt):
     if name == 'butter_pass':
         nyq = 0.5 / dt
         lo, hi = float(nyq * rng.uniform(0.02, 0.2)), float(nyq * rng.uniform(0.4, 0.9))
+        if rng.random() < 0.25:                       # corners within 1 % of the Nyquist frequency / below 1e-3 of it
+            hi = float(nyq * (1.0 - 10.0 ** rng.uniform(-4, -2)))
+        if rng.random() < 0.25:
+            lo = float(nyq * 10.0 ** rng.uniform(-5, -3))
         cut = {'band': [lo, hi], 'low': [None, hi], 'high': [lo, None]}[var]
         kw = {}
         if rng.random() < 0.3:
@@ -1227,6 +1305,10 @@ def _apply_mutator(eqsig, s, m, held):
         getattr(s, name)(timezone=m[1])
     elif name in ('rebase_displacement', 'set_zero_residual_displacement', 'correct_me'):
         getattr(s, name)()
+    elif name == 'call':                      # ['call', method, [args], {kwargs}]: any public method, JSON-able arguments
+        getattr(s, m[1])(*[hold('%s argument' % m[1], a) for a in m[2]], **(m[3] if len(m) > 3 else {}))
+    elif name == 'add_signal/other':          # a companion of another time step / class: ['add_signal/other', values, dt]
+        s.add_signal(eqsig.Signal(hold('add_signal values', m[1]), m[2]))
     else:
         raise ValueError('unknown mutator %r' % (name,))
 
@@ -1238,6 +1320,41 @@ def _read(eqsig, s, what):
     return getattr(s, what)
 
 
+REBINDING = ('reset_values', 'add_constant')     # operations that bind a NEW value buffer (safe after copy.copy)
+
+
+class _NoPlot(object):
+    """Stands in for a matplotlib subplot: eqsig.stockwell.plot_stock memoises the transform on the signal (.swtf)."""
+    def imshow(self, *a, **k):
+        return None
+
+
+def _warm(eqsig, s, what):
+    """Fill one kind of derived cache of s through the public API (the cache states of a copied / pickled object)."""
+    if what == 'smooth':
+        s.smooth_fa_spectrum
+    elif what == 'velocity':
+        s.velocity
+        s.displacement
+    elif what == 'peaks':
+        s.pga, s.pgv, s.pgd
+    elif what == 'response':
+        s.s_a
+    elif what == 'stockwell':
+        eqsig.stockwell.plot_stock(_NoPlot(), s)
+    else:
+        raise ValueError(what)
+
+
+def _carry_memo(src, new):
+    """A copy carries the spectrum memo of its source: same bookkeeping of the options it was generated with."""
+    ent = _LAST.get(id(src))
+    if ent is not None and ent[0]() is src:
+        _LAST[id(new)] = (weakref.ref(new),) + tuple(ent[1:])
+    else:
+        _LAST.pop(id(new), None)
+
+
 def rel_history(ctx, eqsig, p):
     """A history of steps on one object (or on two twin objects): reads of the lazy properties / max_fa_period, explicit
     regenerations with options, array-level spectrum calls on the object, public mutators and interaction steps, in the
@@ -1246,13 +1363,24 @@ def rel_history(ctx, eqsig, p):
     first read after a change of the values, lazy.* / gen_fa_spectrum.* / calc_fa_spectrum.* ... for the others).
     Exceptions of a mutator are counted, not judged (C17 judges the mutators); what follows is judged in any case.
     Twins: 'same-array' builds both objects from one caller array, 'from-values' builds the second from the first one's
-    .values, 'reset-same-array' resets both to one caller array. At the end every array handed in is what it was."""
+    .values, 'reset-same-array' resets both to one caller array. At the end every array handed in is what it was.
+    Round 3: p['cluster'] takes the object(s) out of an eqsig.Cluster; steps 'warm' (fill another derived cache), 'derive'
+    by copy.copy / copy.deepcopy / pickle round trip, 'assign' (setattr through a public name) and mutator calls that
+    raise; with p['family'] the lazy reads after the first such step are reported under '<family>.*'."""
     _HISTORY[0] = p
+    _PHASE[0] = None
+    family = p.get('family')
     held = []
+    shallow = []                 # pairs (copy, source) made by copy.copy: they share the value buffer until one rebinds
     try:
         A = _as_form(p['values'], p.get('form'))
         held.append(('constructor values', A, _snapshot(A)))
-        objs = [_mk(eqsig, p['cls'], A, p['dt'])]
+        if p.get('cluster') is not None:
+            rows = [A, np.asarray(p['cluster'], dtype=float)]
+            cl = eqsig.Cluster(rows, p['dt'], stypes='acc' if p['cls'] == 'AccSignal' else 'custom')
+            objs = [cl.signal_by_index(0), cl.signal_by_index(1)]
+        else:
+            objs = [_mk(eqsig, p['cls'], A, p['dt'])]
         twin = p.get('twin')
         if twin:
             other = 'Signal' if p['cls'] == 'AccSignal' and twin != 'from-values' else p['cls']
@@ -1276,31 +1404,65 @@ def rel_history(ctx, eqsig, p):
                 eqsig.generate_fa_spectrum(s, n_pad=st[2])
             elif kind == 'calc':
                 eqsig.calc_fa_spectrum(s, n=st[2], p2_plus=st[3])
-            elif kind == 'derive':                # an object the library (or deepcopy) derives from this warm object
+            elif kind == 'warm':
                 try:
-                    if st[2] == 'deepcopy':
-                        new = copy.deepcopy(s)
-                        ent = _LAST.get(id(s))          # the copy carries the memo of its source: same bookkeeping
-                        if ent is not None and ent[0]() is s:
-                            _LAST[id(new)] = (weakref.ref(new),) + tuple(ent[1:])
+                    with np.errstate(all='ignore'):
+                        _warm(eqsig, s, st[2])
+                except Exception as e:
+                    ctx.observe('history: warming %s raised %s (counted, not judged here)' % (st[2], type(e).__name__))
+            elif kind == 'assign':                # assignment through a public attribute name after construction
+                val = st[3]
+                if isinstance(val, (np.ndarray, list, tuple)):
+                    held.append(('value assigned to .%s' % st[2], val, _snapshot(val)))
+                try:
+                    setattr(s, st[2], val)
+                    ctx.observe('history: assignment to .%s accepted' % st[2])
+                except Exception as e:
+                    ctx.observe('history: assignment to .%s raised %s' % (st[2], type(e).__name__))
+                if family == 'after-assignment':
+                    _PHASE[0] = family
+            elif kind == 'derive':                # an object the library (or the copy / pickle protocol) derives from this one
+                try:
+                    if st[2] in ('deepcopy', 'copy', 'pickle'):
+                        new = copy.deepcopy(s) if st[2] == 'deepcopy' else \
+                            (copy.copy(s) if st[2] == 'copy' else pickle.loads(pickle.dumps(s, protocol=st[3] if len(st) > 3 else None)))
+                        _carry_memo(s, new)
+                        if st[2] == 'copy':
+                            shallow.append((new, s))
+                        if family == 'copy-protocol':
+                            _PHASE[0] = family
                     elif st[2] == 'interp':
                         new = eqsig.interp_to_approx_dt(s, target_dt=s.dt * st[3], even=bool(st[4]))
                     else:
                         new = eqsig.combine_at_angle(s, objs[-1], st[3])
                     objs.append(new)
                 except Exception as e:
-                    ctx.observe('history: deriving by %s raised %s (counted, not judged here)' % (st[2], type(e).__name__))
+                    if st[2] in ('deepcopy', 'copy', 'pickle'):
+                        ctx.exception('copy-protocol.nbins==N//2', dict(p, fn='rel.history'), e)
+                    else:
+                        ctx.observe('history: deriving by %s raised %s (counted, not judged here)' % (st[2], type(e).__name__))
             else:
+                sharing = [t for pair in shallow if s in pair for t in pair if t is not s and np.shares_memory(t.values, s.values)]
+                if sharing and st[2][0] not in REBINDING:
+                    ctx.observe('history: in-place operation on a shallow copy that shares its buffer skipped')
+                    continue
                 try:
                     with np.errstate(all='ignore'):
                         _apply_mutator(eqsig, s, st[2], held)
                 except Exception as e:
-                    ctx.observe('history: mutator %s raised %s (counted, not judged here)' % (st[2][0], type(e).__name__))
+                    ctx.observe('history: mutator %s raised %s (counted, not judged here)'
+                                % (st[2][1] if st[2][0] == 'call' else st[2][0], type(e).__name__))
+                    if family == 'after-raise':
+                        _PHASE[0] = family
+                if sharing and any(np.shares_memory(t.values, s.values) for t in sharing):
+                    ctx.observe('history: shallow copies still share their buffer after a rebinding operation - not judged further')
+                    break
         bad = [label for label, obj, snap in held if not _unchanged(obj, snap)]
         _judge(ctx, not bad, 'argument-unchanged[record]', lambda: dict(p, fn='rel.history'),
                'arrays handed to the object(s) changed during the history: %s' % bad)
     finally:
         _HISTORY[0] = None
+        _PHASE[0] = None
 
 
 def _draw_history(rng, h, tier):
@@ -1403,6 +1565,353 @@ def _draw_history(rng, h, tier):
     return p, kinds, rcls, cont
 
 
+# ---------------------------------------------------------------------------------------------------- round 3 histories
+NAMES3 = ['fa_spectrum', 'fa_freqs', 'fa_frequencies']
+CACHE_STATES = ['cold', 'fa', 'smooth', 'velocity', 'peaks', 'response', 'stockwell', 'all']
+SIG_CACHE_STATES = ['cold', 'fa', 'smooth', 'stockwell']
+PROTOCOLS = ['copy', 'deepcopy', 'pickle']
+
+
+def _reads3(rng, o, pmax):
+    out = [[o, 'read', NAMES3[int(i)]] for i in rng.permutation(3)[:int(rng.integers(1, 4))]]
+    if rng.random() < pmax:
+        out.insert(int(rng.integers(len(out) + 1)), [o, 'read', 'max_fa_period'])
+    return out
+
+
+def _plain_record(rng, npts):
+    x = np.zeros(npts)
+    while not np.any(x != 0):
+        x, rcls = gen.record(rng, npts)
+    return x, rcls
+
+
+def _entry_step(rng, o, n_cur):
+    """One monitored entry point other than a lazy read, at default or non-default options."""
+    k = int(rng.integers(6))
+    if k == 0:
+        return [o, 'gen', int(rng.integers(0, 4)), None]
+    if k == 1:
+        return [o, 'gen', 0, n_cur + int(rng.integers(0, n_cur + 2))]
+    if k == 2:
+        return [o, 'generate', bool(rng.random() < 0.5)]
+    if k == 3:
+        return [o, 'calc', None, None]
+    if k == 4:
+        return [o, 'calc', n_cur + int(rng.integers(0, 9)), None]
+    return [o, 'calc', None, int(rng.integers(0, 4))]
+
+
+def _draw_protocol_history(rng, h, tier):
+    """copy.copy / copy.deepcopy / pickle round trip of a Signal / AccSignal / Cluster member in every cache state, then
+    reads, explicit regenerations and mutators on the copy AND on the original, in both orders."""
+    clsname = 'AccSignal' if h % 2 else 'Signal'
+    states = CACHE_STATES if clsname == 'AccSignal' else SIG_CACHE_STATES
+    proto = PROTOCOLS[(h // 2) % 3]
+    state = states[(h // 6) % len(states)]
+    copy_first = bool((h // (6 * len(states))) % 2) if rng.random() < 0.7 else bool(rng.integers(2))
+    heavy = state in ('stockwell', 'all')
+    npts = int(round(2.0 ** rng.uniform(2.0, 7.0 if heavy else 9.0)))
+    x, rcls = _plain_record(rng, npts)
+    dt = gen.dt(rng)
+    p = {'values': x, 'form': None, 'dt': dt, 'cls': clsname, 'twin': None, 'family': 'copy-protocol'}
+    if rng.random() < 0.25:
+        p['cluster'] = _plain_record(rng, npts)[0]
+    steps = []
+    r = rng.random()
+    if state != 'cold' and r < 0.25:                      # the memo of the source stems from non-default options
+        steps.append([0, 'gen', int(rng.integers(1, 4)), None])
+    elif state != 'cold' and r < 0.4:
+        steps.append([0, 'gen', 0, npts + int(rng.integers(0, npts + 2))])
+    if state == 'fa':
+        steps += _reads3(rng, 0, 0.3)
+    elif state == 'all':
+        steps += _reads3(rng, 0, 0.3) + [[0, 'warm', w] for w in ('smooth', 'velocity', 'peaks', 'response', 'stockwell')]
+    elif state != 'cold':
+        steps.append([0, 'warm', state])
+        if rng.random() < 0.5:
+            steps += _reads3(rng, 0, 0.2)
+    steps.append([0, 'derive', proto] + ([int(rng.integers(2, 6))] if proto == 'pickle' and rng.random() < 0.5 else []))
+    c = 2 if p.get('cluster') is not None else 1          # index of the copy
+    X, Y = (c, 0) if copy_first else (0, c)
+    pool = ['reset_values/same', 'reset_values/shorter', 'reset_values/longer', 'add_constant']
+    if proto != 'copy':
+        pool = pool + ['add_series', 'remove_average', 'remove_poly', 'running_average', 'add_series/own-values']
+        if clsname == 'AccSignal' and npts >= 64:
+            pool = pool + ['rebase_displacement', 'remove_rolling_average/acceleration', 'set_zero_residual_velocity/None',
+                           'set_zero_residual_displacement']
+    n_of = {X: npts, Y: npts}
+
+    def act(o):
+        """a mutator, an explicit regeneration, or another entry point on object o"""
+        r = rng.random()
+        if r < 0.65:
+            m = _draw_mutator(rng, pool[int(rng.integers(len(pool)))], n_of[o], dt)
+            if m[0] == 'reset_values':
+                n_of[o] = len(m[1])
+            return [[o, 'mut', m]]
+        return [_entry_step(rng, o, n_of[o])]
+
+    if rng.random() < 0.6:
+        steps += _reads3(rng, X, 0.3)
+    steps += act(X)
+    steps += _reads3(rng, X, 0.4)
+    steps += _reads3(rng, Y, 0.4)
+    if rng.random() < 0.7:
+        steps += act(Y)
+        steps += _reads3(rng, Y, 0.3)
+        steps += _reads3(rng, X, 0.3)
+    if rng.random() < 0.3:                                # the caches of both are warmed again and read once more
+        w = ['smooth', 'stockwell'] if clsname == 'Signal' else ['smooth', 'velocity', 'peaks']
+        steps.append([int(rng.choice([X, Y])), 'warm', w[int(rng.integers(len(w)))]])
+        steps += _reads3(rng, Y, 0.2) + _reads3(rng, X, 0.2)
+    p['steps'] = steps
+    return p, ['%s/%s/%s' % (proto, state, 'copy-first' if copy_first else 'original-first')], rcls, 'f64'
+
+
+def _short_values(rng, k, form):
+    v = [float(t) for t in np.sort(10.0 ** rng.uniform(-1, 1.3, size=k))]
+    return v if form == 'list' else (tuple(v) if form == 'tuple' else np.array(v))
+
+
+ASSIGN_NAMES = ['values', 'values', 'values', 'dt', 'npts', 'label', 'smooth_fa_freqs', 'smooth_fa_frequencies', 'response_times',
+                'fa_spectrum', 'fa_freqs', 'smooth_freq_range', 'smooth_freq_points', 'ccbox', 'time']
+
+
+def _draw_assign_history(rng, h, tier):
+    """Assignment through every public attribute / property name after construction, in list / tuple / ndarray form with
+    1, 2, 3 or many entries, then every entry point. The object must behave like one that holds its CURRENT .values / .dt
+    (the clean code ignores `values = ...`, refuses dt / npts / fa_spectrum, accepts the frequency and period lists)."""
+    clsname = 'AccSignal' if h % 2 else 'Signal'
+    name = ASSIGN_NAMES[(h // 2) % len(ASSIGN_NAMES)]
+    form = ['list', 'tuple', 'ndarray'][(h // (2 * len(ASSIGN_NAMES))) % 3]
+    npts = int(round(2.0 ** rng.uniform(1.0, 8.0)))
+    npts = max(npts, 2)
+    x, rcls = _plain_record(rng, npts)
+    dt = gen.dt(rng)
+    p = {'values': x, 'form': None, 'dt': dt, 'cls': clsname, 'twin': None, 'family': 'after-assignment'}
+    if name in ('values', 'fa_spectrum', 'fa_freqs', 'time'):
+        m = [npts, 1, 2, 3, max(2, npts // 2), npts + 1, 2 * npts + 3][int(rng.integers(7))]
+        v = gen.record(rng, m)[0] + (1.0 if rng.random() < 0.5 else 0.0)
+        if name == 'fa_spectrum':
+            v = v.astype(complex)
+        val = [complex(t) if name == 'fa_spectrum' else float(t) for t in v] if form == 'list' else \
+            (tuple(float(t) for t in v) if form == 'tuple' and name != 'fa_spectrum' else v)
+    elif name == 'dt':
+        val = [dt * 2, dt / 2, float(np.float32(dt)), 1][int(rng.integers(4))]
+    elif name == 'npts':
+        val = int(rng.integers(1, 2 * npts + 2))
+    elif name == 'label':
+        val = 'renamed'
+    elif name in ('smooth_fa_freqs', 'smooth_fa_frequencies', 'response_times'):
+        val = _short_values(rng, [1, 2, 3, 3, 40][int(rng.integers(5))], form)
+    elif name == 'smooth_freq_range':
+        val = _short_values(rng, 2, form)
+    elif name == 'smooth_freq_points':
+        val = int(rng.integers(2, 40))
+    else:
+        val = int(rng.integers(0, 5))
+    steps = []
+    r = rng.random()
+    if r < 0.3:
+        steps.append([0, 'gen', int(rng.integers(0, 4)), None])
+    elif r < 0.45:
+        steps.append([0, 'gen', 0, npts + int(rng.integers(0, npts + 2))])
+    if rng.random() < 0.75:                               # warm or cold when the assignment comes
+        steps += _reads3(rng, 0, 0.3)
+    if rng.random() < 0.25:
+        steps.append([0, 'warm', 'smooth'])
+    steps.append([0, 'assign', name, val])
+    n_cur = npts
+    order = list(rng.permutation(4))
+    for k in order:
+        if k == 0:
+            steps += _reads3(rng, 0, 0.5)
+        elif k == 1:
+            steps.append([0, 'calc', None, None])
+            steps.append([0, 'generate', False])
+        elif k == 2:
+            steps.append(_entry_step(rng, 0, n_cur))
+        elif rng.random() < 0.5:
+            steps.append([0, 'warm', 'smooth'])
+    if rng.random() < 0.4:                                # a public mutator afterwards, then reads again
+        steps.append([0, 'mut', _draw_mutator(rng, ['add_constant', 'reset_values/shorter', 'reset_values/longer', 'remove_average'][int(rng.integers(4))], n_cur, dt)])
+        steps += _reads3(rng, 0, 0.4)
+    p['steps'] = steps
+    return p, ['assign:%s/%s' % (name, form)], rcls, 'f64'
+
+
+RAISING = ['add_series/longer', 'add_series/shorter', 'add_series/list-longer', 'add_signal/other-dt', 'add_signal/other-length',
+           'add_signal/not-a-signal', 'butter_pass/three', 'butter_pass/scalar', 'butter_pass/reversed', 'butter_pass/above-nyquist',
+           'butter_pass/none-none', 'butter_pass/too-short', 'reset_values/ragged', 'remove_poly/negative', 'remove_average/str',
+           'running_average/str', 'add_constant/str', 'add_constant/wrong-shape',
+           'nonfinite/reset-nan', 'nonfinite/reset-inf', 'nonfinite/add_constant-nan', 'nonfinite/add_series-inf', 'nonfinite/add_constant-inf']
+ACC_RAISING = ['remove_rolling_average/too-high', 'set_zero_residual_displacement/timezone', 'set_zero_residual_velocity/scalar',
+               'set_zero_residual_displacement_and_velocity/scalar']
+
+
+def _draw_refused(rng, kind, npts, dt):
+    """One JSON-able operation the clean code refuses with an exception (before it changes anything), or - 'nonfinite/*' -
+    accepts silently although the record then holds NaN / inf."""
+    name, _, var = kind.partition('/')
+    nyq = 0.5 / dt
+    if name == 'add_series':
+        m = npts + int(rng.integers(1, 5)) if 'longer' in var else max(1, npts - int(rng.integers(1, 4)))
+        v = gen.record(rng, m)[0] + 1.0
+        return ['call', 'add_series', [[float(t) for t in v] if var.startswith('list') else v]]
+    if name == 'add_signal':
+        if var == 'not-a-signal':
+            return ['call', 'add_signal', [[float(t) for t in gen.record(rng, npts)[0]]]]
+        if var == 'other-dt':
+            return ['add_signal/other', gen.record(rng, npts)[0] + 1.0, float(dt * rng.choice([0.5, 2.0, 1.0 + 1e-9]))]
+        return ['add_signal/other', gen.record(rng, npts + int(rng.integers(1, 4)))[0] + 1.0, dt]
+    if name == 'butter_pass':
+        if var == 'three':
+            return ['call', 'butter_pass', [[0.1 * nyq, 0.3 * nyq, 0.6 * nyq]]]
+        if var == 'scalar':
+            return ['call', 'butter_pass', [0.3 * nyq]]
+        if var == 'reversed':
+            return ['call', 'butter_pass', [(0.6 * nyq, 0.1 * nyq)]]
+        if var == 'above-nyquist':
+            return ['call', 'butter_pass', [(None, float(nyq * rng.choice([1.0, 1.5])))] if rng.random() < 0.5 else [(0.1 * nyq, 1.2 * nyq)]]
+        if var == 'none-none':
+            return ['call', 'butter_pass', [(None, None)]]
+        return ['call', 'butter_pass', [(0.1 * nyq, 0.5 * nyq)], {'filter_order': int(npts)}]      # record too short for the padding
+    if name == 'reset_values':
+        return ['call', 'reset_values', [[[1.0, 2.0], [3.0]]]]
+    if name == 'remove_poly':
+        return ['call', 'remove_poly', [], {'poly_fit': -1}]
+    if name == 'remove_average':
+        return ['call', 'remove_average', [], {'section': 'all'}]
+    if name == 'running_average':
+        return ['call', 'running_average', ['wide']]
+    if name == 'add_constant':
+        return ['call', 'add_constant', ['1.0']] if var == 'str' else ['call', 'add_constant', [np.ones(npts + 2)]]
+    if name == 'remove_rolling_average':
+        return ['call', 'remove_rolling_average', [], {'mtype': ['velocity', 'acceleration'][int(rng.integers(2))], 'freq_window': 10.0 / dt}]
+    if name == 'set_zero_residual_displacement':
+        return ['call', 'set_zero_residual_displacement', [], {'timezone': (0.0, npts * dt / 2)}]
+    if name in ('set_zero_residual_velocity', 'set_zero_residual_displacement_and_velocity'):
+        return ['call', name, [], {'timezone': float(dt)}]
+    # non-finite values, accepted silently
+    bad = float('nan') if 'nan' in var else float(rng.choice([np.inf, -np.inf]))
+    if var.startswith('reset'):
+        m = [npts, max(2, npts // 2), npts + 3][int(rng.integers(3))]
+        v = gen.record(rng, m)[0] + 1.0
+        v[int(rng.integers(m))] = bad
+        if rng.random() < 0.3:
+            v[:] = bad
+        return ['reset_values', v]
+    if var.startswith('add_constant'):
+        return ['add_constant', bad]
+    v = gen.record(rng, npts)[0]
+    v[int(rng.integers(npts))] = bad
+    return ['add_series', v]
+
+
+def _draw_raise_history(rng, h, tier):
+    """read -> an operation that raises (rejected companion, wrong length, bad option) or that silently makes the record
+    non-finite -> every entry point again: the object is as it was (same N, same spectrum) or completely updated."""
+    clsname = 'AccSignal' if h % 2 else 'Signal'
+    pool = RAISING + (ACC_RAISING if clsname == 'AccSignal' else [])
+    kind = pool[(h // 2) % len(pool)]
+    lo = 16 if kind.partition('/')[0] in ('set_zero_residual_velocity', 'set_zero_residual_displacement_and_velocity',
+                                          'set_zero_residual_displacement', 'remove_rolling_average') else 3
+    npts = max(lo, int(round(2.0 ** rng.uniform(1.6, 8.0))))
+    x, rcls = _plain_record(rng, npts)
+    dt = gen.dt(rng)
+    p = {'values': x, 'form': None, 'dt': dt, 'cls': clsname, 'twin': None, 'family': 'after-raise'}
+    steps = []
+    r = rng.random()
+    if r < 0.3:
+        steps.append([0, 'gen', int(rng.integers(0, 4)), None])
+    elif r < 0.45:
+        steps.append([0, 'gen', 0, npts + int(rng.integers(0, npts + 2))])
+    if rng.random() < 0.8:
+        steps += _reads3(rng, 0, 0.3)
+    if rng.random() < 0.3:                                # a successful mutator first: the cache is cold when the refusal comes
+        steps.append([0, 'mut', _draw_mutator(rng, ['add_constant', 'remove_average', 'reset_values/same'][int(rng.integers(3))], npts, dt)])
+        if rng.random() < 0.5:
+            steps += _reads3(rng, 0, 0.2)
+    kinds = [kind]
+    steps.append([0, 'mut', _draw_refused(rng, kind, npts, dt)])
+    if rng.random() < 0.25:
+        k2 = pool[int(rng.integers(len(pool)))]
+        if not (k2.startswith('nonfinite') or kind.startswith('nonfinite')) and not (lo == 3 and k2 in ACC_RAISING and npts < 16):
+            kinds.append(k2)
+            steps.append([0, 'mut', _draw_refused(rng, k2, npts, dt)])
+    steps += _reads3(rng, 0, 0.5)
+    steps.append([0, 'calc', None, None])
+    steps.append(_entry_step(rng, 0, npts))
+    steps += _reads3(rng, 0, 0.3)
+    if rng.random() < 0.6:                                # back to a finite record through the public API, then reads
+        steps.append([0, 'mut', _draw_mutator(rng, ['reset_values/same', 'reset_values/shorter', 'reset_values/longer'][int(rng.integers(3))], npts, dt)])
+        steps += _reads3(rng, 0, 0.4)
+    p['steps'] = steps
+    return p, kinds, rcls, 'f64'
+
+
+# ---------------------------------------------------------------------------------------------------- f(A); f(B); f(A)
+ABA_POINTS = ['lazy', 'gen(p2_plus)', 'gen(n)', 'generate', 'generate(n_pad=False)', 'calc', 'calc(n)', 'calc(p2_plus)',
+              'fas2values', 'fas2signal', 'max_fa_period']
+
+
+def _aba_call(eqsig, point, s, p, n):
+    """One entry point on signal object s at the (non-default) options of the case -> tuple of result arrays / scalars."""
+    if point == 'lazy':
+        return s.fa_spectrum, s.fa_freqs
+    if point == 'gen(p2_plus)':
+        s.gen_fa_spectrum(p2_plus=p['p2_plus'])
+        return s.fa_spectrum, s.fa_frequencies
+    if point == 'gen(n)':
+        s.gen_fa_spectrum(n=n)
+        return s.fa_spectrum, s.fa_freqs
+    if point == 'generate':
+        return eqsig.generate_fa_spectrum(s)
+    if point == 'generate(n_pad=False)':
+        return eqsig.generate_fa_spectrum(s, n_pad=False)
+    if point == 'calc':
+        return eqsig.calc_fa_spectrum(s)
+    if point == 'calc(n)':
+        return eqsig.calc_fa_spectrum(s, n=n)
+    if point == 'calc(p2_plus)':
+        return eqsig.calc_fa_spectrum(s, p2_plus=p['p2_plus'])
+    if point == 'max_fa_period':
+        return (np.float64(eqsig.im.max_fa_period(s)),)
+    fas = eqsig.calc_fa_spectrum(s, n=n)[0] if p.get('inverse_of') == 'n' else eqsig.calc_fa_spectrum(s)[0]
+    if point == 'fas2values':
+        return (eqsig.fas2values(fas, s.dt),)
+    return (eqsig.fas2signal(fas, s.dt, stype=p['stype']).values,)
+
+
+def rel_aba(ctx, eqsig, p):
+    """Results depend on the arguments only: f(A); f(B); f(A) for every entry point f at the options of the case, A and B
+    two draws of one recipe (same or different length, same or different dt). Each call is judged by its monitor; here:
+    the third result equals the first BIT FOR BIT (fresh object for A each time, then the first object asked again), and
+    the arrays held from the first call are what they were after B and after the repeat."""
+    A, B, dtA, dtB, clsname = np.asarray(p['A'], dtype=float), np.asarray(p['B'], dtype=float), p['dt'], p['dt_b'], p['cls']
+    nA, nB = int(p['n']), max(int(p['n']), len(B))
+    wit = lambda: dict(p, fn='rel.aba')
+    for point in p['points']:
+        s1 = _mk(eqsig, clsname, A, dtA)
+        r1 = _aba_call(eqsig, point, s1, p, nA)
+        snaps = [np.array(v) for v in r1]
+        _aba_call(eqsig, point, _mk(eqsig, clsname, B, dtB), p, nB)
+        mid = [i for i, (v, sn) in enumerate(zip(r1, snaps)) if not _same_bits(np.asarray(v), sn)]
+        r3 = _aba_call(eqsig, point, _mk(eqsig, clsname, A, dtA), p, nA)
+        r4 = _aba_call(eqsig, point, s1, p, nA)
+        bad = [i for i, (v, sn) in enumerate(zip(r1, snaps)) if not _same_bits(np.asarray(v), sn)]
+        _judge(ctx, not mid and not bad, 'back-to-back.first-result-intact', wit,
+               '%s: results held from f(A) changed %s (result index %s; npts A=%d B=%d)'
+               % (point, 'when f(B) ran' if mid else 'when f(A) was repeated', mid or bad, len(A), len(B)))
+        for tag, r in (('a fresh object for A', r3), ('the first object again', r4)):
+            same = len(r) == len(snaps) and all(_same_bits(np.asarray(v), sn) for v, sn in zip(r, snaps))
+            _judge(ctx, same, 'aba.third==first', wit,
+                   lambda: '%s: f(A); f(B); f(A) on %s: the repeat differs from the first result (npts A=%d B=%d, n=%d, p2_plus=%d): %s'
+                   % (point, tag, len(A), len(B), nA, p['p2_plus'],
+                      [tol.describe(np.asarray(v), sn, rtol=0.0) for v, sn in zip(r, snaps) if not _same_bits(np.asarray(v), sn)][:1]))
+
+
 # ---------------------------------------------------------------------------------------------------- workload
 def _largest_prime_factor(n):
     f, p = 1, 2
@@ -1438,6 +1947,8 @@ def _explicit_n(rng, npts, i):
         return npts + (npts % 2) + 2 * int(rng.integers(0, 4))          # even
     if k == 4:
         return O.n_padded(npts)
+    if rng.random() < 0.25 and npts <= 128:            # a transform far longer than the record (17 .. 64 times)
+        return npts * int(rng.integers(17, 65)) + int(rng.integers(0, 3))
     return npts + int(rng.integers(0, npts + 8))
 
 
@@ -1592,6 +2103,48 @@ def run_shard(ctx):
             rel_history(ctx, eqsig, p)
         except Exception as e:
             ctx.exception('lazy-after-mutation.bins==dt*DFT(current values)', dict(p, fn='rel.history'), e)
+    # -- round 3: copy / pickle protocols, assignment through public names, operations that raise ------------------
+    fams = [('copy-protocol', _draw_protocol_history, 'copy-protocol.bins==dt*DFT(own current values)', 576 if quick else 4608),
+            ('after-assignment', _draw_assign_history, 'after-assignment.bins==dt*DFT(own current values)', 360 if quick else 2880),
+            ('after-raise', _draw_raise_history, 'after-raise.bins==dt*DFT(own current values)', 432 if quick else 3456)]
+    for fam, draw, clause, count in fams:
+        for h in core.split_range(count, ctx.shard, ctx.nshards):
+            if ctx.out_of_time():
+                ctx.observe('stopped by the safety-net budget')
+                break
+            p, kinds, rcls, cont = draw(rng, h, ctx.tier)
+            ctx.case(core.digest(np.asarray(p['values'], dtype=float), fam, p['dt'], p['cls'], repr(p['steps'])), nontrivial=True,
+                     cls='history3/%s/%s/%s%s' % (fam, p['cls'], '+'.join(kinds), '/cluster-member' if p.get('cluster') is not None else ''),
+                     sample={'history': fam, 'npts': len(p['values']), 'dt': p['dt'], 'cls': p['cls'], 'record': rcls,
+                             'kinds': kinds, 'cluster_member': p.get('cluster') is not None, 'n_steps': len(p['steps'])})
+            try:
+                rel_history(ctx, eqsig, p)
+            except Exception as e:
+                ctx.exception(clause, dict(p, fn='rel.history'), e)
+    # -- round 3: f(A); f(B); f(A) at non-default options, B of the same and of another shape -----------------------
+    n_aba = 192 if quick else 1536
+    for k in core.split_range(n_aba, ctx.shard, ctx.nshards):
+        if ctx.out_of_time():
+            ctx.observe('stopped by the safety-net budget')
+            break
+        npts = max(2, int(round(2.0 ** rng.uniform(1.0, 9.0))))
+        A = _plain_record(rng, npts)[0]
+        shape = ['same', 'same', 'shorter', 'longer', 'half', 'double', 'plus-one'][k % 7]
+        mB = {'same': npts, 'shorter': max(2, npts - int(rng.integers(1, npts + 1))), 'longer': npts + int(rng.integers(1, npts + 2)),
+              'half': max(2, npts // 2), 'double': 2 * npts, 'plus-one': npts + 1}[shape]
+        dtA = gen.dt(rng)
+        q = {'A': A, 'B': _plain_record(rng, mB)[0], 'dt': dtA, 'dt_b': dtA if rng.random() < 0.6 else gen.dt(rng),
+             'cls': 'AccSignal' if k % 2 else 'Signal', 'p2_plus': int(rng.integers(1, 4)),
+             'n': _explicit_n(rng, npts, int(rng.integers(1, 8))), 'stype': 'signal' if rng.random() < 0.5 else 'acc',
+             'inverse_of': 'n' if rng.random() < 0.5 else 'nopad',
+             'points': [ABA_POINTS[int(i)] for i in rng.permutation(len(ABA_POINTS))[:6]]}
+        ctx.case(core.digest(A, q['B'], dtA, q['dt_b'], q['cls'], q['n'], q['p2_plus'], repr(q['points'])), nontrivial=True,
+                 cls='aba/%s-shape' % shape, sample={'aba': True, 'npts_a': npts, 'npts_b': mB, 'dt': dtA, 'dt_b': q['dt_b'],
+                                                      'n': q['n'], 'p2_plus': q['p2_plus'], 'points': q['points']})
+        try:
+            rel_aba(ctx, eqsig, q)
+        except Exception as e:
+            ctx.exception('aba.third==first', dict(q, fn='rel.aba'), e)
     # -- informational probes, no verdict ---------------------------------------------------------------------
     if ctx.shard == 0:
         s = eqsig.AccSignal(np.sin(np.arange(40) * 0.3), 0.01)
@@ -1639,6 +2192,8 @@ def replay(w):
         rel_inverse_object(ctx, eqsig, w)
     elif fn == 'rel.history':
         rel_history(ctx, eqsig, w)
+    elif fn == 'rel.aba':
+        rel_aba(ctx, eqsig, w)
     elif fn == 'fas2values':
         eqsig.fas2values(w['fas'], w['dt'])
     elif fn == 'fas2signal':
